@@ -261,3 +261,84 @@ def setnf(t):
     if k in ("attr", "sym", "idx"):
         return frozenset({("all", t)}), frozenset()
     return None
+
+
+# ------------------------------------------------------------------ membership normal form
+def member(x, coll):
+    """canonical formula for  x in coll  where coll is built from literals, concat/union, comprehensions"""
+    k = coll[0]
+    if k == "seq":
+        return T.b_or(*[T.cmp("Eq", x, e) for e in coll[1]]) if coll[1] else T.FALSE
+    if k in ("concat", "union"):
+        return T.b_or(member(x, coll[1]), member(x, coll[2]))
+    if k == "call" and coll[1] in ("list", "set", "tuple") and len(coll[2]) == 1:
+        return member(x, coll[2][0])
+    if k == "map":
+        elt, bv, it, cond = coll[1:5]
+        if elt == bv:
+            return T.b_and(member(x, it), T.substitute(cond, {bv: x}))
+        return ("exists", T.b_and(cond, T.cmp("Eq", elt, x)), bv, it)
+    if k == "flatmap":
+        inner, bv, it, cond = coll[1:5]
+        if inner[0] == "map" and inner[1] == bv:
+            # [E for E in it for v in it2(E) if cond2(E, v)]  : x is such an E with a witness v
+            _, _, bv2, it2, cond2 = inner
+            sub = {bv: x}
+            return T.b_and(member(x, it), T.substitute(cond, sub),
+                           ("exists", T.substitute(cond2, sub), bv2, T.substitute(it2, sub)))
+        return ("exists", T.b_and(cond, member(x, inner)), bv, it)
+    return ("in", x, coll)
+
+
+# ------------------------------------------------------------------ NONE: value of a None-returning mutator is used
+_LISTISH = (ast.List, ast.ListComp, ast.Dict, ast.DictComp, ast.Set, ast.SetComp)
+
+
+def _is_container_ctor(repo, func, node):
+    if isinstance(node, _LISTISH):
+        return True
+    if isinstance(node, ast.Call):
+        n = call_name(repo, func, node)
+        if n in ("list", "dict", "set", "sorted"):
+            return True
+    return False
+
+
+def is_container_term(t, summary, depth=0):
+    """the term is provably a python list / dict / set (constructor, comprehension, or a loop-carried one)"""
+    if depth > 6:
+        return False
+    k = t[0]
+    if k in ("seq", "map", "concat", "flatmap", "dict", "set", "app", "union"):
+        return True
+    if k == "call" and t[1] in ("list", "dict", "set", "sorted"):
+        return True
+    if k == "mut":
+        return is_container_term(t[2], summary, depth + 1)
+    if k == "lc":
+        init = summary.loop_init.get((t[1], t[2]))
+        return init is not None and is_container_term(init, summary, depth + 1)
+    if k == "phi":
+        return is_container_term(t[2], summary, depth + 1) and is_container_term(t[3], summary, depth + 1)
+    return False
+
+
+def none_rule_sites(repo, func):
+    """[(node, receiver text, method)]: the result of a list/dict/set mutator (always None) is bound or returned,
+    and the receiver is provably a container on every reaching definition (so np.insert(...) is not matched)"""
+    from .model import NONE_RETURNING
+    s = sym.summarize(repo, func.qualname)
+    calls = {id(e.node): e for e in s.events if e.kind == "call"}
+    out = []
+    for e in s.events:
+        if e.kind not in ("assign", "store", "return"):
+            continue
+        v = getattr(e.node, "value", None)
+        if not (isinstance(v, ast.Call) and isinstance(v.func, ast.Attribute) and v.func.attr in NONE_RETURNING):
+            continue
+        ce = calls.get(id(v))
+        if ce is None or ce.recv is None:
+            continue
+        if is_container_term(ce.recv, s):
+            out.append((e.node, unparse(v.func.value), v.func.attr))
+    return out
